@@ -228,6 +228,9 @@ namespace link_layer {
 
                 void reset_encryption()
                 {
+                    // an encryption start procedure does not survive the connection it was started on
+                    has_key_                    = false;
+                    encryption_in_progress_     = false;
                     start_encryption_requested_ = false;
                     that().connection_data_.is_encrypted( false );
                     that().stop_receive_encrypted();
